@@ -80,9 +80,21 @@ impl Spec for Lvl {
 }
 impl Elem for Lvl {}
 dp! {
-	c11q_dp_map_value_level: BTreeMap<u8, Lvl>, Some(1), 2, false, 6; c11q_dp_set_elem_level: BTreeSet<Lvl>, Some(1), 1, false, 6; c11q_dp_list_elem_level: LinkedList<Lvl>, Some(2), 2, true, 6;
-	c11q_dp_vec_elem_level: Vec<Lvl>, Some(2), 2, true, 6; c11t_dp_map_key_level: BTreeMap<Lvl, u8>, Some(1), 2, false, 6; c11t_dp_deque_elem_level: VecDeque<Lvl>, Some(2), 2, true, 6;
+	c11q_dp_list_elem_level: LinkedList<Lvl>, Some(2), 2, true, 6; c11q_dp_vec_elem_level: Vec<Lvl>, Some(2), 2, true, 6; c11t_dp_deque_elem_level: VecDeque<Lvl>, Some(2), 2, true, 6;
 }
+/// maps / sets: the limit is CONCRETE per query (a symbolic limit makes the number of collected entries content-dependent,
+/// which drags std's sort into the query); depth of a one-entry map of Lvl values is 2: limit 1 must fail, limit 2 succeed
+fn map_level<T: Decode, const L: usize>(lim: u32, expect_ok: bool) {
+	let bytes: [u8; L] = kani::any();
+	let r = T::decode_with_depth_limit(lim, &mut Pre::count(1, &bytes[..]));
+	assert!(r.is_ok() == expect_ok, "nesting inside a map/set entry is not counted below the map's own level");
+	core::mem::forget(r);
+}
+#[kani::proof] #[kani::unwind(6)] pub fn c11q_map_value_level_lim1() { map_level::<BTreeMap<u8, Lvl>, 2>(1, false) }
+#[kani::proof] #[kani::unwind(6)] pub fn c11q_map_value_level_lim2() { map_level::<BTreeMap<u8, Lvl>, 2>(2, true) }
+#[kani::proof] #[kani::unwind(6)] pub fn c11q_set_elem_level_lim1() { map_level::<BTreeSet<Lvl>, 1>(1, false) }
+#[kani::proof] #[kani::unwind(6)] pub fn c11t_set_elem_level_lim2() { map_level::<BTreeSet<Lvl>, 1>(2, true) }
+#[kani::proof] #[kani::unwind(6)] pub fn c11t_map_key_level_lim1() { map_level::<BTreeMap<Lvl, u8>, 2>(1, false) }
 
 /// decode_all_with_depth_limit additionally rejects a non-empty remainder (also decided in C14)
 #[kani::proof]
